@@ -1,0 +1,151 @@
+//go:build verif
+
+// Contracts for the verification machinery in /verif (comment-only; never compiled into a binary).
+// Property C13: admitted pods obey the QoS/priority protocol and keep their declared amounts (mutating half).
+
+package mutating
+
+//@ uses apis/extension
+
+// extension.ResourceNameMap is initialised once (apis/extension/resource.go) and never written afterwards:
+// batch -> {cpu: batch-cpu, memory: batch-memory}, mid -> {cpu: mid-cpu, memory: mid-memory}, nothing else.
+//@ spec func extName(c extension.PriorityClass, n corev1.ResourceName) corev1.ResourceName = c == extension.PriorityBatch ? (n == corev1.ResourceCPU ? extension.BatchCPU : (n == corev1.ResourceMemory ? extension.BatchMemory : "")) : (c == extension.PriorityMid ? (n == corev1.ResourceCPU ? extension.MidCPU : (n == corev1.ResourceMemory ? extension.MidMemory : "")) : "")
+
+//@ spec func nameMapAt(c extension.PriorityClass, n corev1.ResourceName) bool = extension.ResourceNameMap[c][n] == extName(c, n)
+
+// amount stored under the extended name: CPU in milli-cores (MilliValue = ceil(1000*q)), everything else unchanged
+//@ spec func xlate(n corev1.ResourceName, q resource.Quantity) resource.Quantity = n == corev1.ResourceCPU ? real(ceil(q * 1000)) : q
+
+//@ func replaceAndEraseResource [C13]
+//@   requires nameMapAt(priorityClass, resourceName)
+//@   let e = extName(priorityClass, resourceName)
+//@   ensures #noop: e == "" || !old(has(resourceList, resourceName)) ==> !result && (forall n corev1.ResourceName :: has(resourceList, n) == old(has(resourceList, n)) && val(resourceList, n) == old(val(resourceList, n)))
+//@   ensures #moved: e != "" && old(has(resourceList, resourceName)) ==> result && !has(resourceList, resourceName) && has(resourceList, e) && val(resourceList, e) == xlate(resourceName, old(val(resourceList, resourceName)))
+//@   ensures #rest: forall n corev1.ResourceName :: n != e && n != resourceName ==> has(resourceList, n) == old(has(resourceList, n)) && val(resourceList, n) == old(val(resourceList, n))
+//@   modifies contents(resourceList)
+//@   ensures #erased: e != "" ==> !has(resourceList, resourceName)   // hence a second application takes the #noop branch
+
+// NOTE restrictResourceRequestAndLimit carries no active contract. It writes `requirements.Requests` through an interior
+// pointer into a slice element; at a call site the engine turns `modifies requirements.Requests` into "field Requests of
+// EVERY element of the backing array is forgotten", which destroys the whole-pod invariant of mutatePodResourceSpec
+// (loop2/inv#3, inv#4 preserve and ensures#settled no longer discharge). The function is therefore inlined into
+// mutatePodResourceSpec, whose #containers/#init/#settled/#result clauses state its effect (missing extended request
+// filled from the limit). The contract below was verified stand-alone (11 obligations, 3 mutants caught) before being
+// disabled:
+//    func restrictResourceRequestAndLimit
+//      requires nameMapAt(priorityClass, resourceName)
+//      let e = extName(priorityClass, resourceName)
+//      let fill = e != "" && !has(requirements.Requests, e) && has(requirements.Limits, e)
+//      ensures #result: result <==> old(fill)
+//      ensures #noop: !old(fill) ==> requirements.Requests == old(requirements.Requests) && (forall n :: entry n of Requests unchanged)
+//      ensures #filled: old(fill) ==> requirements.Requests != nil && has(requirements.Requests, e) && val(requirements.Requests, e) == old(val(requirements.Limits, e))
+//      ensures #rest: forall n :: n != e ==> entry n of Requests unchanged
+//      ensures #limits: requirements.Limits and all its entries unchanged
+//      ensures #idem: !fill
+//      ensures #samemap: old(requirements.Requests) != nil ==> requirements.Requests == old(requirements.Requests)
+//      modifies requirements.Requests, contents(requirements.Requests)
+
+//@ spec func isNative(n corev1.ResourceName) bool = n == corev1.ResourceCPU || n == corev1.ResourceMemory
+
+//@ spec func sameAsOld(m corev1.ResourceList) bool = forall n corev1.ResourceName :: {has(m, n)} {val(m, n)} has(m, n) == old(has(m, n)) && val(m, n) == old(val(m, n))
+
+// contents of map m (same reference before and after) are the translation of its old contents for tier c
+//@ spec func mapXlated(c extension.PriorityClass, m corev1.ResourceList) bool = forall n corev1.ResourceName :: {has(m, n)} {val(m, n)} (isNative(n) ==> !has(m, n)) && (n == extName(c, corev1.ResourceCPU) ==> has(m, n) == old(has(m, corev1.ResourceCPU) || has(m, n)) && val(m, n) == old(has(m, corev1.ResourceCPU) ? xlate(corev1.ResourceCPU, val(m, corev1.ResourceCPU)) : val(m, n))) && (n == extName(c, corev1.ResourceMemory) ==> has(m, n) == old(has(m, corev1.ResourceMemory) || has(m, n)) && val(m, n) == old(has(m, corev1.ResourceMemory) ? val(m, corev1.ResourceMemory) : val(m, n))) && (!isNative(n) && n != extName(c, corev1.ResourceCPU) && n != extName(c, corev1.ResourceMemory) ==> has(m, n) == old(has(m, n)) && val(m, n) == old(val(m, n)))
+
+// requests of container cs[j]: translated like a limit list, then every missing extended request is filled from the (translated) limit
+//@ spec func reqXlated(c extension.PriorityClass, cs []corev1.Container, j int) bool = (old(cs[j].Resources.Requests) != nil ==> cs[j].Resources.Requests == old(cs[j].Resources.Requests)) && (old(cs[j].Resources.Requests) == nil ==> cs[j].Resources.Requests == nil || fresh(cs[j].Resources.Requests)) && (forall n corev1.ResourceName :: {has(cs[j].Resources.Requests, n)} {val(cs[j].Resources.Requests, n)} (isNative(n) ==> !has(cs[j].Resources.Requests, n)) && (n == extName(c, corev1.ResourceCPU) ==> has(cs[j].Resources.Requests, n) == (old(has(cs[j].Resources.Requests, corev1.ResourceCPU) || has(cs[j].Resources.Requests, n)) || has(cs[j].Resources.Limits, n)) && val(cs[j].Resources.Requests, n) == (old(has(cs[j].Resources.Requests, corev1.ResourceCPU)) ? old(xlate(corev1.ResourceCPU, val(cs[j].Resources.Requests, corev1.ResourceCPU))) : (old(has(cs[j].Resources.Requests, n)) ? old(val(cs[j].Resources.Requests, n)) : val(cs[j].Resources.Limits, n)))) && (n == extName(c, corev1.ResourceMemory) ==> has(cs[j].Resources.Requests, n) == (old(has(cs[j].Resources.Requests, corev1.ResourceMemory) || has(cs[j].Resources.Requests, n)) || has(cs[j].Resources.Limits, n)) && val(cs[j].Resources.Requests, n) == (old(has(cs[j].Resources.Requests, corev1.ResourceMemory)) ? old(val(cs[j].Resources.Requests, corev1.ResourceMemory)) : (old(has(cs[j].Resources.Requests, n)) ? old(val(cs[j].Resources.Requests, n)) : val(cs[j].Resources.Limits, n)))) && (!isNative(n) && n != extName(c, corev1.ResourceCPU) && n != extName(c, corev1.ResourceMemory) ==> has(cs[j].Resources.Requests, n) == old(has(cs[j].Resources.Requests, n)) && val(cs[j].Resources.Requests, n) == old(val(cs[j].Resources.Requests, n))))
+
+//@ spec func contDone(c extension.PriorityClass, cs []corev1.Container, j int) bool = cs[j].Resources.Limits == old(cs[j].Resources.Limits) && mapXlated(c, cs[j].Resources.Limits) && reqXlated(c, cs, j)
+
+//@ spec func contSame(cs []corev1.Container, j int) bool = cs[j].Resources.Limits == old(cs[j].Resources.Limits) && cs[j].Resources.Requests == old(cs[j].Resources.Requests) && sameAsOld(cs[j].Resources.Limits) && sameAsOld(cs[j].Resources.Requests)
+
+// All resource lists of a decoded pod are distinct map objects: owner() ranks them injectively.
+//@ spec func owner(m corev1.ResourceList) int
+//@ spec func distinctLists(pod *corev1.Pod) bool = (forall j int :: 0 <= j && j < len(pod.Spec.InitContainers) ==> (pod.Spec.InitContainers[j].Resources.Requests != nil ==> owner(pod.Spec.InitContainers[j].Resources.Requests) == 4*j) && (pod.Spec.InitContainers[j].Resources.Limits != nil ==> owner(pod.Spec.InitContainers[j].Resources.Limits) == 4*j+1)) && (forall j int :: 0 <= j && j < len(pod.Spec.Containers) ==> (pod.Spec.Containers[j].Resources.Requests != nil ==> owner(pod.Spec.Containers[j].Resources.Requests) == 4*j+2) && (pod.Spec.Containers[j].Resources.Limits != nil ==> owner(pod.Spec.Containers[j].Resources.Limits) == 4*j+3)) && (pod.Spec.Overhead != nil ==> owner(pod.Spec.Overhead) == 0-1) && (len(pod.Spec.InitContainers) == 0 || len(pod.Spec.Containers) == 0 || arr(pod.Spec.InitContainers) != arr(pod.Spec.Containers))
+
+//@ spec func sameSlice(a []corev1.Container, b []corev1.Container) bool = arr(a) == arr(b) && off(a) == off(b) && len(a) == len(b)
+
+//@ spec func tier(c extension.PriorityClass) bool = c == extension.PriorityBatch || c == extension.PriorityMid
+
+// state of container cs[j] once the loop has passed it / before the loop reaches it
+//@ spec func after(c extension.PriorityClass, cs []corev1.Container, j int) bool = tier(c) ? contDone(c, cs, j) : contSame(cs, j)
+
+// nothing left to translate in container cs[j]: no native cpu/memory entry, every extended limit has its request
+//@ spec func settled(c extension.PriorityClass, cs []corev1.Container, j int) bool = !has(cs[j].Resources.Requests, corev1.ResourceCPU) && !has(cs[j].Resources.Requests, corev1.ResourceMemory) && !has(cs[j].Resources.Limits, corev1.ResourceCPU) && !has(cs[j].Resources.Limits, corev1.ResourceMemory) && (has(cs[j].Resources.Limits, extName(c, corev1.ResourceCPU)) ==> has(cs[j].Resources.Requests, extName(c, corev1.ResourceCPU))) && (has(cs[j].Resources.Limits, extName(c, corev1.ResourceMemory)) ==> has(cs[j].Resources.Requests, extName(c, corev1.ResourceMemory)))
+
+// some container among the first k of cs was not settled at function entry
+//@ spec func dirtyBefore(c extension.PriorityClass, cs []corev1.Container, k int) bool = exists j int :: 0 <= j && j < k && j < len(cs) && !old(settled(c, cs, j))
+
+//@ func (*PodMutatingHandler).mutatePodResourceSpec [C13]
+//@   option inline restrictResourceRequestAndLimit replaceAndEraseResource
+//@   requires extension.rangesOK() && extension.DefaultPriorityClass == extension.PriorityNone
+//@   requires pod != nil && distinctLists(pod)
+//@   let c = extension.podPrioDefault(pod)
+//@   requires nameMapAt(c, corev1.ResourceCPU) && nameMapAt(c, corev1.ResourceMemory)
+//@   ensures #err: result1 == nil
+//@   ensures #containers: forall j int :: 0 <= j && j < len(pod.Spec.Containers) ==> after(c, pod.Spec.Containers, j)
+//@   ensures #init: forall j int :: 0 <= j && j < len(pod.Spec.InitContainers) ==> after(c, pod.Spec.InitContainers, j)
+//@   ensures #overhead: pod.Spec.Overhead == old(pod.Spec.Overhead) && (tier(c) ? mapXlated(c, pod.Spec.Overhead) : sameAsOld(pod.Spec.Overhead))
+//@   ensures #untouched: !tier(c) ==> !result0
+//@   ensures #settled: tier(c) ==> (forall j int :: 0 <= j && j < len(pod.Spec.Containers) ==> settled(c, pod.Spec.Containers, j)) && (forall j int :: 0 <= j && j < len(pod.Spec.InitContainers) ==> settled(c, pod.Spec.InitContainers, j)) && !has(pod.Spec.Overhead, corev1.ResourceCPU) && !has(pod.Spec.Overhead, corev1.ResourceMemory)
+//@   ensures #result: result0 <==> (tier(c) && (dirtyBefore(c, pod.Spec.InitContainers, len(pod.Spec.InitContainers)) || dirtyBefore(c, pod.Spec.Containers, len(pod.Spec.Containers)) || old(has(pod.Spec.Overhead, corev1.ResourceCPU) || has(pod.Spec.Overhead, corev1.ResourceMemory))))
+//@   modifies allelems(pod.Spec.Containers), allmaps(pod.Spec.Overhead)   // only container elements and resource lists; no other field of the pod
+//@   loop 1 invariant 0 <= $i && $i <= 2
+//@   loop 1 invariant tier(c) ==> (mutated <==> (($i >= 1 && dirtyBefore(c, pod.Spec.InitContainers, len(pod.Spec.InitContainers))) || ($i >= 2 && dirtyBefore(c, pod.Spec.Containers, len(pod.Spec.Containers)))))
+//@   loop 1 invariant forall j int :: 0 <= j && j < len(pod.Spec.InitContainers) ==> ($i >= 1 ? after(c, pod.Spec.InitContainers, j) : contSame(pod.Spec.InitContainers, j))
+//@   loop 1 invariant forall j int :: 0 <= j && j < len(pod.Spec.Containers) ==> ($i >= 2 ? after(c, pod.Spec.Containers, j) : contSame(pod.Spec.Containers, j))
+//@   loop 1 invariant sameAsOld(pod.Spec.Overhead)
+//@   loop 1 invariant !tier(c) ==> !mutated
+//@   loop 2 invariant 0 <= $i && $i <= len(containers)
+//@   loop 2 invariant sameSlice(containers, pod.Spec.InitContainers) || sameSlice(containers, pod.Spec.Containers)
+//@   loop 2 invariant forall j int :: 0 <= j && j < len(pod.Spec.InitContainers) ==> (sameSlice(containers, pod.Spec.InitContainers) ? (j < $i ? after(c, pod.Spec.InitContainers, j) : contSame(pod.Spec.InitContainers, j)) : after(c, pod.Spec.InitContainers, j))
+//@   loop 2 invariant forall j int :: 0 <= j && j < len(pod.Spec.Containers) ==> (sameSlice(containers, pod.Spec.InitContainers) ? contSame(pod.Spec.Containers, j) : (j < $i ? after(c, pod.Spec.Containers, j) : contSame(pod.Spec.Containers, j)))
+//@   loop 2 invariant sameAsOld(pod.Spec.Overhead)
+//@   loop 2 invariant !tier(c) ==> !mutated
+//@   loop 2 invariant tier(c) ==> (mutated <==> (sameSlice(containers, pod.Spec.InitContainers) ? dirtyBefore(c, pod.Spec.InitContainers, $i) : (dirtyBefore(c, pod.Spec.InitContainers, len(pod.Spec.InitContainers)) || dirtyBefore(c, pod.Spec.Containers, $i))))
+
+//@ spec func inNames(names []corev1.ResourceName, n corev1.ResourceName) bool = exists i int :: 0 <= i && i < len(names) && names[i] == n
+//@ spec func inNamesBefore(names []corev1.ResourceName, n corev1.ResourceName, k int) bool = exists i int :: 0 <= i && i < k && i < len(names) && names[i] == n
+
+// the summary of a container = its requests and limits restricted to the given extended resource names, nil when empty
+//@ func getContainerExtendedResourcesRequirement [C13]
+//@   ensures #nil: result == nil <==> (container == nil || (forall i int :: 0 <= i && i < len(resourceNames) ==> !has(container.Resources.Requests, resourceNames[i]) && !has(container.Resources.Limits, resourceNames[i])))
+//@   ensures #fresh: result != nil ==> fresh(result) && fresh(result.Requests) && fresh(result.Limits) && result.Requests != result.Limits
+//@   ensures #requests: result != nil ==> (forall n corev1.ResourceName :: {has(result.Requests, n)} {val(result.Requests, n)} has(result.Requests, n) == (inNames(resourceNames, n) && has(container.Resources.Requests, n)) && (has(result.Requests, n) ==> val(result.Requests, n) == val(container.Resources.Requests, n)))
+//@   ensures #limits: result != nil ==> (forall n corev1.ResourceName :: {has(result.Limits, n)} {val(result.Limits, n)} has(result.Limits, n) == (inNames(resourceNames, n) && has(container.Resources.Limits, n)) && (has(result.Limits, n) ==> val(result.Limits, n) == val(container.Resources.Limits, n)))
+//@   ensures #nil2: len(resourceNames) == 2 && container != nil ==> (result == nil <==> (!has(container.Resources.Requests, resourceNames[0]) && !has(container.Resources.Requests, resourceNames[1]) && !has(container.Resources.Limits, resourceNames[0]) && !has(container.Resources.Limits, resourceNames[1])))   // the two-name instance used by mutateByExtendedResources
+//@   ensures #requests2: len(resourceNames) == 2 && result != nil ==> (forall n corev1.ResourceName :: {has(result.Requests, n)} {val(result.Requests, n)} has(result.Requests, n) == ((n == resourceNames[0] || n == resourceNames[1]) && has(container.Resources.Requests, n)) && (has(result.Requests, n) ==> val(result.Requests, n) == val(container.Resources.Requests, n)))
+//@   ensures #limits2: len(resourceNames) == 2 && result != nil ==> (forall n corev1.ResourceName :: {has(result.Limits, n)} {val(result.Limits, n)} has(result.Limits, n) == ((n == resourceNames[0] || n == resourceNames[1]) && has(container.Resources.Limits, n)) && (has(result.Limits, n) ==> val(result.Limits, n) == val(container.Resources.Limits, n)))
+//@   modifies nothing
+//@   loop 1 invariant 0 <= $i && $i <= len(resourceNames)
+//@   loop 1 invariant r != nil && fresh(r) && r.Requests != nil && r.Limits != nil && fresh(r.Requests) && fresh(r.Limits) && r.Requests != r.Limits
+//@   loop 1 invariant forall n corev1.ResourceName :: {has(r.Requests, n)} {val(r.Requests, n)} has(r.Requests, n) == (inNamesBefore(resourceNames, n, $i) && has(container.Resources.Requests, n)) && (has(r.Requests, n) ==> val(r.Requests, n) == val(container.Resources.Requests, n))
+//@   loop 1 invariant forall n corev1.ResourceName :: {has(r.Limits, n)} {val(r.Limits, n)} has(r.Limits, n) == (inNamesBefore(resourceNames, n, $i) && has(container.Resources.Limits, n)) && (has(r.Limits, n) ==> val(r.Limits, n) == val(container.Resources.Limits, n))
+//@   loop 1 invariant (len(r.Requests) == 0 <==> (forall n corev1.ResourceName :: !has(r.Requests, n))) && (len(r.Limits) == 0 <==> (forall n corev1.ResourceName :: !has(r.Limits, n)))
+
+//@ spec func isBatchName(n corev1.ResourceName) bool = n == extension.BatchCPU || n == extension.BatchMemory
+
+//@ spec func hasBatch(cs []corev1.Container, j int) bool = has(cs[j].Resources.Requests, extension.BatchCPU) || has(cs[j].Resources.Requests, extension.BatchMemory) || has(cs[j].Resources.Limits, extension.BatchCPU) || has(cs[j].Resources.Limits, extension.BatchMemory)
+
+// the entry of summary map m for container cs[j] holds exactly the batch requests/limits of the container spec
+//@ spec func summaryAt(m map[string]extension.ExtendedResourceContainerSpec, cs []corev1.Container, j int) bool = (forall n corev1.ResourceName :: {has(m[cs[j].Name].Requests, n)} {val(m[cs[j].Name].Requests, n)} has(m[cs[j].Name].Requests, n) == (isBatchName(n) && has(cs[j].Resources.Requests, n)) && val(m[cs[j].Name].Requests, n) == (isBatchName(n) ? val(cs[j].Resources.Requests, n) : 0)) && (forall n corev1.ResourceName :: {has(m[cs[j].Name].Limits, n)} {val(m[cs[j].Name].Limits, n)} has(m[cs[j].Name].Limits, n) == (isBatchName(n) && has(cs[j].Resources.Limits, n)) && val(m[cs[j].Name].Limits, n) == (isBatchName(n) ? val(cs[j].Resources.Limits, n) : 0))
+
+//@ spec func namedBefore(cs []corev1.Container, nm string, k int) bool = exists j int :: 0 <= j && j < k && j < len(cs) && cs[j].Name == nm && hasBatch(cs, j)
+
+// The summary handed to SetExtendedResourceSpec (and hence the annotation text specEnc(spec)) matches the final container
+// specs: every entry belongs to a container that names a batch resource and holds exactly its batch requests and limits.
+// NOT proved: "no such container is omitted" -- needs &pod.Spec.Containers[i] != nil at the call of
+// getContainerExtendedResourcesRequirement, and the engine does not know that the address of a slice element is non-nil.
+//@ func (*PodMutatingHandler).mutateByExtendedResources [C13]
+//@   requires pod != nil
+//@   requires forall a int, b int :: 0 <= a && a < b && b < len(pod.Spec.Containers) ==> pod.Spec.Containers[a].Name != pod.Spec.Containers[b].Name   // API validation: unique container names
+//@   assert before call SetExtendedResourceSpec: $arg0 == pod && $arg1 != nil && (forall j int :: 0 <= j && j < len(pod.Spec.Containers) && has($arg1.Containers, pod.Spec.Containers[j].Name) ==> summaryAt($arg1.Containers, pod.Spec.Containers, j)) && (forall nm string :: has($arg1.Containers, nm) ==> namedBefore(pod.Spec.Containers, nm, len(pod.Spec.Containers)))
+//@   ensures #once: calls("SetExtendedResourceSpec") <= 1
+//@   ensures #changed: result0 ==> result1 == nil && calls("SetExtendedResourceSpec") == 1 && has(pod.ObjectMeta.Annotations, extension.AnnotationExtendedResourceSpec)
+//@   ensures #unchanged: calls("SetExtendedResourceSpec") == 0 ==> !result0 && pod.ObjectMeta.Annotations == old(pod.ObjectMeta.Annotations) && (forall k string :: has(pod.ObjectMeta.Annotations, k) == old(has(pod.ObjectMeta.Annotations, k)) && pod.ObjectMeta.Annotations[k] == old(pod.ObjectMeta.Annotations[k]))
+//@   ensures #others: forall k string :: k != extension.AnnotationExtendedResourceSpec ==> has(pod.ObjectMeta.Annotations, k) == old(has(pod.ObjectMeta.Annotations, k)) && pod.ObjectMeta.Annotations[k] == old(pod.ObjectMeta.Annotations[k])
+//@   loop 1 invariant 0 <= $i && $i <= len(pod.Spec.Containers)
+//@   loop 1 invariant containersSpec != nil && fresh(containersSpec) && extendedResourceSpec != nil && fresh(extendedResourceSpec)
+//@   loop 1 invariant forall nm string :: {has(containersSpec, nm)} has(containersSpec, nm) ==> namedBefore(pod.Spec.Containers, nm, $i)
+//@   loop 1 invariant forall j int :: 0 <= j && j < $i && has(containersSpec, pod.Spec.Containers[j].Name) ==> summaryAt(containersSpec, pod.Spec.Containers, j)
+//@   loop 1 invariant len(containersSpec) == 0 <==> (forall nm string :: !has(containersSpec, nm))
